@@ -34,6 +34,16 @@ CLAIMED = {
          "is run on k = 2 (quick) / 3 objects with symbolic fields - the solver chooses which runs fault - and then on one more object; a freshly prepared evaluator given the same persistent variables must agree on result, error, host calls and variables, and the number of open scopes must not grow.", "4 C07"),
  "C15": ("Bounded symbolic execution of copy-then-mutate programs (assignment, parameter, array element, loop variable, object field; ++ -- += -= *= /=) with an integer literal that is symbolic in [0,70000] (AST-level), float and string literals, bodies in a loop and over two runs, compared with a value-semantics reference interpreter; "
          "host object given to SetVariable must not change.", "4 C15"),
+ "C08": ("Bounded symbolic execution with the script text itself symbolic: every text of up to 2 (quick) / 3 bytes over a 36-symbol alphabet covering all lexer classes (incl. NUL, quotes, backslash, newline, a multi-byte character's bytes) and every sequence of up to 3 of 26 (quick) / 4 of 39 token spellings is driven through Prepare, Dump, Execute and Run; "
+         "27 run-time fault scripts with symbolic operands (any int64 index/divisor, ranges, value-less calls as values, panic, hostile format strings) and 15 odd host objects (nil, non-structs, nil pointers, maps with other key/value kinds, structs with unconvertible fields) x 9 scripts; assertion: no Go panic escapes and the evaluator can be used again.", "4 C08"),
+ "C09": ("Time as a symbolic variable: the context's Done channel becomes ready at poll K (K symbolic in [0,40] quick / [0,120]) or is cancelled by the host from inside its K-th callback; 8 non-terminating script shapes (top-level loops, nested foreach, unbounded recursion, loops inside functions inside loops, recursion then loop) through Run and Execute. "
+         "The solver covers every cancellation moment: the run fails, the poll that saw the context done is the last one, no host callback happens after it, an already expired context prevents execution, and a script finishing before the deadline is unaffected.", "4 C09"),
+ "C13": ("28 invalid fragments (unterminated string/regexp/block/parameter list/switch, missing operands, assignment and compound assignment to non-variables, local outside a function, nested ternaries, illegal characters incl. NUL, case outside switch, two defaults, malformed foreach) with symbolic string bodies, digits and identifier letters, "
+         "placed in 21 enclosing contexts nested to depth 2 (quick) / 3; Prepare must return an error and the same contexts with a valid fragment must be accepted (vacuity guard); plus token-boundary truncations of valid programs with an open bracket.", "4 C13"),
+ "C14": ("The lexer, parser and compiler executed on symbolic script bytes: string literals in both quote styles whose body is up to 3 (quick) / 4 characters, each any ASCII byte 1..127 or a multi-byte character, compared with a reference unescape; regexp literals (pattern and i/m flags reach the constant pool unchanged); integer literals of up to 4 / 9 symbolic digits (value = sum of digits, decided by the solver), decimals, ranges; "
+         "division-vs-regexp after 18 kinds of preceding text; token sequences with symbolic whitespace and // comments in the gaps; termination of NextToken for every byte string of length <= 2 / 3.", "4 C14"),
+ "C20": ("API part only (the command-line driver is not covered yet, see DESIGN.md): Run against Execute for values of all types and provenances incl. a host function returning nothing, run-time errors and scripts running off the end; SetVariable/GetVariable round trips for all types in three call orders; host functions of arity 0..3 with symbolic distinct arguments and all result types incl. void; "
+         "NoOptimize leaves the compiler's output untouched byte for byte.", "4 C20"),
 }
 
 TECH = "bounded symbolic execution of the repository's go/ssa (own SSA interpreter fork) with SMT (z3/cvc5) deciding each path assertion; native replay of models"
